@@ -63,6 +63,7 @@ class LongQuicPacket(QuicPacket):
 
             case QuicPacketType.VERSION_NEG:
                 self.supported_version = supported_version
+                self.packet_num = None  # version negotiation packets carry no packet number
 
 
 class ShortQuicPacket(QuicPacket):
